@@ -1,6 +1,6 @@
 CONSTANTS
   MaxDepth = 2
-  NDims = 6
+  NDims = 8
 INIT MInit
 NEXT MNext
 CONSTRAINT Depth
